@@ -1223,6 +1223,9 @@ class ItemSpaceParent(ItemFactoryImpl, BaseNamespaceReferrer, HasFormula):
                     self.formula = ParamFunc(formula, name="_formula")
                 self.altfunc = BoundFunction(self)
                 self.altfunc.notify()
+                if getattr(self, "_dynamic_subs", None):
+                    # Dynamic copies of self have no formula
+                    self.clear_subs_rootitems()
             else:
                 if not isinstance(formula, ParamFunc):
                     # Validate the new formula before deleting the old one
@@ -1240,6 +1243,9 @@ class ItemSpaceParent(ItemFactoryImpl, BaseNamespaceReferrer, HasFormula):
         else:
             self.del_all_itemspaces()
             self.altfunc = self.formula = None
+            if getattr(self, "_dynamic_subs", None):
+                # Dynamic copies of self still have the formula
+                self.clear_subs_rootitems()
 
     def del_all_itemspaces(self):
         for key in list(self.param_spaces):
